@@ -5,7 +5,7 @@ set -e
 N="$1"
 mkdir -p /work/$N
 git -C /verif worktree add -q /work/$N/verif -b $N
-cp -r /verif/harness/target /work/$N/verif/harness/target
+cp -a /verif/harness/target /work/$N/verif/harness/target
 mkdir -p /work/$N/verif/lean
-cp -r /verif/lean/.lake /work/$N/verif/lean/.lake
+cp -a /verif/lean/.lake /work/$N/verif/lean/.lake
 echo "/work/$N/verif ready"
